@@ -4,6 +4,7 @@
   unchanged and changes the content of its own handle as the vector spec says (`Sem`).
 -/
 import MptModel.Lemmas.Heap
+import MptModel.Spec.ArrayOps
 namespace Mpt.Heap
 open Mpt
 
@@ -30,7 +31,7 @@ theorem DetachPost.keeps {s : State} {h : Nat} {x : Buf} {n : Nat} {s2 : State} 
     (p : DetachPost s h x n s2 nb) (hu : x.used ≤ x.size) (hn : x.used ≤ n) :
     ∃ z, s2.buf? nb = some z ∧ z.ref = 1 ∧ z.immutable = false ∧ n ≤ z.size ∧ z.traits = x.traits ∧
       z.used = x.used ∧ z.content = x.content := by
-  obtain ⟨inv2, _, _, _, z, hz, zr, zi, zs, zt, k, hk, zc⟩ := p
+  obtain ⟨inv2, _, _, _, z, hz, zr, zi, zs, zt, k, hk, zc, _⟩ := p
   have zu := inv2.used nb z hz
   have cl := content_length x hu
   have zc' : z.content = x.content := by
@@ -69,7 +70,7 @@ theorem ensure_sem {s : State} (inv : Inv s) {h b : Nat} {x : Buf} (hh : s.handl
     have hu := inv.used b x hb
     have hr := inv.ref b x hb
     show DetachPost s h x n s b
-    refine ⟨inv, rfl, fun _ _ => rfl, hh, x, hb, by omega, c.2.1, c.2.2, rfl, max n x.used, by omega, ?_⟩
+    refine ⟨inv, rfl, fun _ _ => rfl, hh, x, hb, by omega, c.2.1, c.2.2, rfl, max n x.used, by omega, ?_, fun c => by omega⟩
     rw [List.take_of_length_le]
     rw [content_length x hu]; omega
 
@@ -1154,7 +1155,7 @@ theorem clone_sem {s : State} (inv : Inv s) {dst : Nat} (hlt : dst < s.hs.length
 
 
 theorem detachOp_sem {s : State} (inv : Inv s) {h : Nat} (n : Nat) :
-    Sem s h (fun v v' => ∃ k, n ≤ k ∧ v' = v.take k) (detachOp s h n) := by
+    Sem s h (fun v v' => v' = v ∨ (ownerImmutable s h = true ∧ ∃ k, n ≤ k ∧ k < v.length ∧ v' = v.take k)) (detachOp s h n) := by
   unfold detachOp
   cases hh : s.handle h with
   | none => exact Sem.fail_same inv _ _ _
@@ -1162,14 +1163,22 @@ theorem detachOp_sem {s : State} (inv : Inv s) {h : Nat} (n : Nat) :
     simp only
     obtain ⟨x, hb⟩ := inv.live h b hh
     have absx : s.abs h = x.content := State.abs_of hh hb
+    have cl := content_length x (inv.used b x hb)
     have es := ensure_sem inv hh hb true n (by intro e; cases e)
     generalize ensure s h b true n = r at es
     cases r with
     | fault w => exact es
     | fail s1 e => exact ⟨es.1, by rw [es.2.1], es.2.2⟩
     | ok s1 nb =>
-      obtain ⟨inv2, len2, oth2, hh2, z, hz, _, _, _, _, k, hk, zc⟩ := es
-      exact ⟨inv2, len2, ⟨k, hk, by rw [State.abs_of hh2 hz, zc, absx]⟩, oth2⟩
+      obtain ⟨inv2, len2, oth2, hh2, z, hz, _, _, _, _, k, hk, zc, ktr⟩ := es
+      refine ⟨inv2, len2, ?_, oth2⟩
+      rw [State.abs_of hh2 hz, zc, absx]
+      by_cases lt : k < x.used
+      · right
+        obtain ⟨im, rf⟩ := ktr lt
+        refine ⟨by simp [ownerImmutable, hh, hb, im, rf], k, hk, by rw [cl]; exact lt, rfl⟩
+      · left
+        exact List.take_of_length_le (by rw [cl]; omega)
 
 theorem reduce_sem {s : State} (inv : Inv s) {h : Nat} :
     Sem s h (fun v v' => v' = v) (arrayReduce s h) := by
@@ -1208,7 +1217,7 @@ theorem min_mod {a b k : Nat} (ha : a % k = 0) (hb : b % k = 0) : min a b % k = 
 theorem reserveNew_shared_sem {s : State} (inv : Inv s) {h b : Nat} {x : Buf} (hh : s.handle h = some b)
     (hb : s.buf? b = some x) (n len : Nat) (nlen : n ≤ len) (traits : Option Traits) (pt : PlainT traits)
     (lal : len % esize traits = 0) :
-    Sem s h (fun v v' => v' = [] ∨ ∃ k, n ≤ k ∧ v' = v.take k) (reserveNew s h (some b) len traits) := by
+    Sem s h (fun v v' => (x.traits = traits ∧ x.uncopyable = false ∧ v' = v.take len) ∨ (v' = [] ∧ ¬ (x.traits = traits ∧ x.uncopyable = false))) (reserveNew s h (some b) len traits) := by
   have hlt := State.handle_lt hh
   have blt := State.buf?_lt hb
   have hu := inv.used b x hb
@@ -1229,7 +1238,8 @@ theorem reserveNew_shared_sem {s : State} (inv : Inv s) {h b : Nat} {x : Buf} (h
   rw [if_neg esz0]
   -- the new buffer after the copy step
   have copy : ∃ z, z.ref = 1 ∧ z.used ≤ z.size ∧ PlainT z.traits ∧ z.used % esize z.traits = 0 ∧
-      (z.content = [] ∨ z.content = x.content.take len) ∧
+      ((x.traits = traits ∧ x.uncopyable = false ∧ z.content = x.content.take len) ∨
+        (z.content = [] ∧ ¬ (x.traits = traits ∧ x.uncopyable = false))) ∧
       ∃ v, reserveCopy (s.newBuf len 0 traits) s.bufs.length x len traits =
         .ok ((s.newBuf len 0 traits).setBuf s.bufs.length z) v := by
     unfold reserveCopy
@@ -1252,10 +1262,11 @@ theorem reserveNew_shared_sem {s : State} (inv : Inv s) {h b : Nat} {x : Buf} (h
       have zfacts : ∀ esz, esz = esize traits →
           let z := setPlain (State.fresh len 0 traits) esz 0 (x.data.take (min x.used len))
           z.ref = 1 ∧ z.used ≤ z.size ∧ PlainT z.traits ∧ z.used % esize z.traits = 0 ∧
-          (z.content = [] ∨ z.content = x.content.take len) := by
+          ((x.traits = traits ∧ x.uncopyable = false ∧ z.content = x.content.take len) ∨
+            (z.content = [] ∧ ¬ (x.traits = traits ∧ x.uncopyable = false))) := by
         intro esz he
         rw [setPlain_fresh]
-        refine ⟨rfl, ?_, pt, ?_, Or.inr ?_⟩
+        refine ⟨rfl, ?_, pt, ?_, Or.inl ⟨te, by simpa using c.2.1, ?_⟩⟩
         · simp only [Buf.size]
           rw [write_length _ _ _ (by rw [tl, List.length_replicate]; omega), tl, List.length_replicate]; omega
         · show (x.data.take (min x.used len)).length % esize traits = 0
@@ -1281,8 +1292,22 @@ theorem reserveNew_shared_sem {s : State} (inv : Inv s) {h b : Nat} {x : Buf} (h
         have zf := zfacts t.size (by rw [ht]; rfl)
         rw [ht] at zf
         exact ⟨_, zf.1, zf.2.1, zf.2.2.1, zf.2.2.2.1, zf.2.2.2.2, _, rfl⟩
-    · refine ⟨State.fresh len 0 traits, rfl, by simp [State.fresh], pt, by simp [State.fresh], Or.inl (by simp [State.fresh, Buf.content]), 0, ?_⟩
-      rw [same]
+    · rename_i nc
+      refine ⟨State.fresh len 0 traits, rfl, by simp [State.fresh], pt, by simp [State.fresh], ?_, 0, ?_⟩
+      · by_cases tc : x.traits = traits ∧ x.uncopyable = false
+        · left
+          refine ⟨tc.1, tc.2, ?_⟩
+          have m0 : min (x.used - x.used % esize x.traits) len = 0 := by
+            apply Decidable.byContradiction
+            intro ne
+            exact nc ⟨tc.1, by simp [tc.2], ne⟩
+          rw [hal, Nat.sub_zero] at m0
+          have : x.content.take len = [] := by
+            apply List.eq_nil_of_length_eq_zero
+            rw [List.length_take, content_length x hu]; omega
+          rw [this]; simp [State.fresh, Buf.content]
+        · right; exact ⟨by simp [State.fresh, Buf.content], tc⟩
+      · rw [same]
   obtain ⟨z, zr, zu, zp, za, zc, v, hcopy⟩ := copy
   rw [hcopy]
   simp only
@@ -1297,7 +1322,7 @@ theorem reserveNew_shared_sem {s : State} (inv : Inv s) {h b : Nat} {x : Buf} (h
   have final : ∀ s3 : State, s3.hs = s.hs →
       (∀ c, s3.buf? c = if c = s.bufs.length then some z else
         if c = b then (if x.ref = 1 then none else some { x with ref := x.ref - 1 }) else s.buf? c) →
-      Sem (α := Nat) s h (fun v v' => v' = [] ∨ ∃ k, n ≤ k ∧ v' = v.take k) (.ok (s3.setHandle h (some s.bufs.length)) s.bufs.length) := by
+      Sem (α := Nat) s h (fun v v' => (x.traits = traits ∧ x.uncopyable = false ∧ v' = v.take len) ∨ (v' = [] ∧ ¬ (x.traits = traits ∧ x.uncopyable = false))) (.ok (s3.setHandle h (some s.bufs.length)) s.bufs.length) := by
     intro s3 h3 b3
     have ret := Inv.retarget (s' := s3.setHandle h (some s.bufs.length)) inv (z := z) hlt hnb (by simp [h3])
       (by
@@ -1313,9 +1338,9 @@ theorem reserveNew_shared_sem {s : State} (inv : Inv s) {h b : Nat} {x : Buf} (h
       zr zu zp za
     refine ⟨ret.1, by simp [h3], ?_, ret.2.2.2⟩
     rw [ret.2.2.1, absx]
-    rcases zc with e | e
-    · exact Or.inl e
-    · exact Or.inr ⟨len, nlen, e⟩
+    rcases zc with ⟨e1, e2, e3⟩ | ⟨e1, e2⟩
+    · exact Or.inl ⟨e1, e2, e3⟩
+    · exact Or.inr ⟨e1, e2⟩
   have bne : ¬ b = s.bufs.length := fun e => nbne e.symm
   by_cases r1 : x.ref = 1
   · simp only [r1, ne_eq, not_true_eq_false, if_false]
@@ -1393,9 +1418,9 @@ theorem detach_private_no_fail {s : State} {b : Nat} {x : Buf} (hb : s.buf? b = 
     · intro c; cases c
 
 theorem reserveKeep_sem {s : State} (inv : Inv s) {h b : Nat} {x : Buf} (hh : s.handle h = some b)
-    (hb : s.buf? b = some x) (priv : x.shared = false) (n len : Nat) (nlen : n ≤ len)
+    (hb : s.buf? b = some x) (priv : x.shared = false) (mu : x.immutable = false) (n len : Nat) (nlen : n ≤ len)
     (traits : Option Traits) (pt : PlainT traits) :
-    Sem s h (fun v v' => v' = [] ∨ ∃ k, n ≤ k ∧ v' = v.take k) (reserveKeep s h b x len traits) := by
+    Sem s h (fun v v' => v' = v ∨ (v' = [] ∧ x.traits ≠ traits)) (reserveKeep s h b x len traits) := by
   have hu := inv.used b x hb
   have hal := inv.aligned b x hb
   have hp := inv.plain b x hb
@@ -1408,14 +1433,15 @@ theorem reserveKeep_sem {s : State} (inv : Inv s) {h b : Nat} {x : Buf} (hh : s.
   -- the state after the optional clearing, and its buffer
   have mid : ∃ s1 x1, (if x.traits ≠ traits then Out.ok (s.setBuf b { x with used := 0 }) () else Out.ok s ()) = Out.ok s1 () ∧
       Inv s1 ∧ s1.handle h = some b ∧ s1.buf? b = some x1 ∧ s1.hs = s.hs ∧ (∀ h', h' ≠ h → s1.abs h' = s.abs h') ∧
-      x1.traits = x.traits ∧ (x1.content = [] ∨ x1.content = x.content) ∧ (x.traits ≠ traits → x1.used = 0) := by
+      x1.traits = x.traits ∧ ((x.traits ≠ traits ∧ x1.content = []) ∨ (x.traits = traits ∧ x1.content = x.content)) ∧
+      (x.traits ≠ traits → x1.used = 0) ∧ x1.flags = x.flags := by
     by_cases ne : x.traits = traits
-    · exact ⟨s, x, by simp [ne], inv, hh, hb, rfl, fun _ _ => rfl, rfl, Or.inr rfl, fun c => absurd ne c⟩
+    · exact ⟨s, x, by simp [ne], inv, hh, hb, rfl, fun _ _ => rfl, rfl, Or.inr ⟨ne, rfl⟩, fun c => absurd ne c, rfl⟩
     · have pm := inv.setBuf_private hh hb r1 { x with used := 0 } r1 (by simp) hp (by simp)
       refine ⟨_, { x with used := 0 }, by simp [ne], pm.1, by simpa using hh, ?_, rfl, pm.2.2, rfl,
-        Or.inl (by simp [Buf.content]), fun _ => rfl⟩
+        Or.inl ⟨ne, by simp [Buf.content]⟩, fun _ => rfl, rfl⟩
       rw [State.buf?_setBuf _ _ _ _ blt]; simp
-  obtain ⟨s1, x1, he, inv1, hh1, hb1, hs1, oth1, xt1, xc1, xu1⟩ := mid
+  obtain ⟨s1, x1, he, inv1, hh1, hb1, hs1, oth1, xt1, xc1, xu1, xf1⟩ := mid
   rw [he]
   simp only
   have es := ensure_sem inv1 hh1 hb1 true len (by intro e; cases e)
@@ -1439,7 +1465,7 @@ theorem reserveKeep_sem {s : State} (inv : Inv s) {h b : Nat} {x : Buf} (hh : s.
   | ok s2 nb =>
     simp only
     have dp : DetachPost s1 h x1 len s2 nb := es
-    obtain ⟨inv2, len2, oth2, hh2, z, hz, zr, zi, zs, zt, k, hk, zc⟩ := dp
+    obtain ⟨inv2, len2, oth2, hh2, z, hz, zr, zi, zs, zt, k, hk, zc, ktr⟩ := dp
     rw [hz]
     simp only
     have zu := inv2.used nb z hz
@@ -1455,11 +1481,21 @@ theorem reserveKeep_sem {s : State} (inv : Inv s) {h b : Nat} {x : Buf} (hh : s.
           simp [this])
     refine ⟨pm.1, by simp [len2, hs1], ?_, ?_⟩
     · rw [pm.2.1, absx]
-      show z.content = [] ∨ ∃ k, n ≤ k ∧ z.content = List.take k x.content
-      rw [zc]
-      rcases xc1 with c0 | c1
-      · left; rw [c0]; simp
-      · right; exact ⟨k, by omega, by rw [c1]⟩
+      show z.content = x.content ∨ (z.content = [] ∧ x.traits ≠ traits)
+      -- a private, mutable buffer is never truncated by detach
+      have kfull : x1.used ≤ k := by
+        apply Decidable.byContradiction
+        intro lt
+        have := (ktr (by omega)).1
+        simp only [Buf.immutable, xf1] at this mu
+        rw [mu] at this; cases this
+      have zc' : z.content = x1.content := by
+        rw [zc]
+        exact List.take_of_length_le (by rw [content_length x1 (inv1.used b x1 hb1)]; exact kfull)
+      rw [zc']
+      rcases xc1 with ⟨c0, c1⟩ | ⟨c0, c1⟩
+      · right; exact ⟨c1, c0⟩
+      · left; exact c1
     · intro h' ne; rw [pm.2.2 h' ne, oth2 h' ne]; exact oth1 h' ne
 
 
@@ -1490,9 +1526,14 @@ theorem reserveLen_mod (x : Buf) (len : Nat) (traits : Option Traits) (h : len %
     · exact h
   · exact h
 
+/-- what `mpt_array_reserve` may do to the value of its handle: nothing, or — only when the element type changes —
+    drop it -/
+def ReserveRel (s : State) (h : Nat) (traits : Option Traits) (v v' : Vec.Vec) : Prop :=
+  v' = v ∨ (typeDiffers s h traits = true ∧ v' = [])
+
 theorem reserve_sem {s : State} (inv : Inv s) {h : Nat} (hlt : h < s.hs.length) (n : Nat) (traits : Option Traits)
     (pt : PlainT traits) :
-    Sem s h (fun v v' => v' = [] ∨ ∃ k, n ≤ k ∧ v' = v.take k) (arrayReserve s h n traits) := by
+    Sem s h (ReserveRel s h traits) (arrayReserve s h n traits) := by
   have e0 := esize_ne_zero_of_plain traits pt
   unfold arrayReserve
   rw [if_neg e0]
@@ -1502,20 +1543,63 @@ theorem reserve_sem {s : State} (inv : Inv s) {h : Nat} (hlt : h < s.hs.length) 
   | none =>
     simp only [reserveNew]
     obtain ⟨dp, absx⟩ := attach_fresh inv hlt hh (roundUp n (esize traits)) traits pt
-    obtain ⟨inv1, len1, oth1, hh1, z, hz, _, _, _, _, k, _, zc⟩ := dp
+    obtain ⟨inv1, len1, oth1, hh1, z, hz, _, _, _, _, k, _, zc, _⟩ := dp
     refine ⟨inv1, len1, Or.inl ?_, oth1⟩
-    rw [State.abs_of hh1 hz, zc]
+    rw [State.abs_of hh1 hz, zc, State.abs_none hh]
     simp [State.fresh, Buf.content]
   | some b =>
     simp only
     obtain ⟨x, hb⟩ := inv.live h b hh
     rw [hb]
     simp only
+    have hu := inv.used b x hb
+    have hal := inv.aligned b x hb
+    have absx : s.abs h = x.content := State.abs_of hh hb
+    have bx : (s.handle h).bind s.buf? = some x := by rw [hh]; simp [hb]
     split
-    · exact reserveNew_shared_sem inv hh hb n _ (Nat.le_trans nlen (le_reserveLen x _ traits)) traits pt (reserveLen_mod x _ traits lal)
+    · by_cases guard : x.traits = traits ∧ x.uncopyable = true ∧ x.used - x.used % esize x.traits ≠ 0
+      · rw [if_pos guard]; exact Sem.fail_same inv _ _ _
+      · rw [if_neg guard]
+        have rs := reserveNew_shared_sem inv hh hb n _ (Nat.le_trans nlen (le_reserveLen x _ traits)) traits pt (reserveLen_mod x _ traits lal)
+        generalize reserveNew s h (some b) (reserveLen x (roundUp n (esize traits)) traits) traits = r at rs
+        cases r with
+        | fault w => exact rs
+        | fail s1 e => exact rs
+        | ok s1 v =>
+          refine ⟨rs.1, rs.2.1, ?_, rs.2.2.2⟩
+          have cl := content_length x hu
+          rcases rs.2.2.1 with ⟨te, cp, e⟩ | ⟨e, nc⟩
+          · left
+            rw [e]
+            apply List.take_of_length_le
+            rw [absx, cl]
+            unfold reserveLen
+            rw [if_pos ⟨te, by simp [cp]⟩, hal]
+            exact Nat.le_max_right _ _
+          · by_cases te : x.traits = traits
+            · left
+              have unc : x.uncopyable = true := by
+                cases hc : x.uncopyable with
+                | true => rfl
+                | false => exact absurd ⟨te, hc⟩ nc
+              have u0 : x.used = 0 := by
+                apply Decidable.byContradiction
+                intro ne
+                exact guard ⟨te, unc, by rw [hal]; omega⟩
+              rw [e, absx]
+              exact (List.eq_nil_of_length_eq_zero (by rw [cl]; exact u0)).symm
+            · exact Or.inr ⟨by simp [typeDiffers, bx, te], e⟩
     · rename_i priv
       simp only [not_or, Bool.not_eq_true] at priv
-      exact reserveKeep_sem inv hh hb priv.1 n _ nlen traits pt
-
+      have rk := reserveKeep_sem inv hh hb priv.1 priv.2 n _ nlen traits pt
+      generalize reserveKeep s h b x (roundUp n (esize traits)) traits = r at rk
+      cases r with
+      | fault w => exact rk
+      | fail s1 e => exact rk
+      | ok s1 v =>
+        refine ⟨rk.1, rk.2.1, ?_, rk.2.2.2⟩
+        rcases rk.2.2.1 with e | ⟨e, ne⟩
+        · exact Or.inl e
+        · exact Or.inr ⟨by simp [typeDiffers, bx, ne], e⟩
 
 end Mpt.Heap
